@@ -1,3 +1,4 @@
+use crate::error_code::ErrorCode;
 use crate::server_error::ServerResult;
 use agdb::QueryType;
 use agdb_api::DbUserRole;
@@ -43,6 +44,25 @@ where
 {
     if std::fs::exists(&file)? {
         std::fs::remove_file(file)?;
+    }
+
+    Ok(())
+}
+
+/// Database names become file names inside the owner's directory
+/// (`<data_dir>/<owner>/<db>`, `.<db>`, `audit/<db>.log`, `backups/<db>.bak`,
+/// `backups/<db>.log`). A name that is a path (separators, `..`), a hidden
+/// file (would collide with another database's write ahead log) or one of the
+/// directories the server itself keeps there cannot be mapped to files that
+/// are private to that database.
+pub(crate) fn validate_db_name(name: &str) -> ServerResult {
+    if name.is_empty()
+        || name.starts_with('.')
+        || name.contains(['/', '\\', '\0'])
+        || name == "audit"
+        || name == "backups"
+    {
+        return Err(ErrorCode::DbInvalid.into());
     }
 
     Ok(())
